@@ -566,6 +566,13 @@ class Tdf:
             comment=comment,
         )._write(BytesIO())
         newBlock._write(BytesIO())
+        # ... and the slot freed by the removal can take the new block: add_block
+        # refuses a table in which an unused slot precedes a used one
+        remaining = [entry.type for entry in self.entries if entry is not old_entry]
+        remaining.append(BlockType.unusedSlot)
+        first_unused = remaining.index(BlockType.unusedSlot)
+        if any(t != BlockType.unusedSlot for t in remaining[first_unused + 1 :]):
+            raise IOError("All unused slots must be at the end of the file")
 
         self.remove_block(newBlock.type)
         self.add_block(newBlock, comment)
